@@ -286,6 +286,10 @@ CLAIMS["C06"] = {
             "(channel_messages_never_refused; invariant: for every live connection and every end it has claimed in the broker's table "
             "the client's map, after the messages on their way, says pending while the other end is unclaimed and established once it "
             "is claimed). "
+            "Nothing is left waiting: for a connection the broker still serves, every serial in one of the client's 16 maps belongs to a "
+            "request on its way to the broker or a reply on its way to the client, so with both queues empty the maps are empty "
+            "(pending_serials_are_on_their_way, quiescent_no_pending; a broker turn for such a request either queues the reply or "
+            "removes the connection, step_msg_answers). "
             "The composed statement for calls and NotSupported, and the client's own assert!s about its maps, are NOT theorems: this is "
             "tied by runs of real clients against a real broker under PRNG-chosen schedules on FIFO sizes 1..16 and unbounded, whose "
             "transport traces are replayed through the model, with implementation-only oracles for panics, unexpected-message stops, "
